@@ -601,16 +601,19 @@ func parseGINMeta(page []byte) *GINMetaPage {
 	// Meta data starts after page header
 	data := page[headerSize:]
 	
+	// GinMetaPageData: head@0 tail@4 tailFreeSize@8 nPendingPages@12
+	// nPendingHeapTuples(int64)@16 nTotalPages@24 nEntryPages@28 nDataPages@32
+	// (pad) nEntries(int64)@40 ginVersion@48
 	return &GINMetaPage{
-		Version:           binary.LittleEndian.Uint32(data[0:4]),
-		Head:              binary.LittleEndian.Uint32(data[4:8]),
-		Tail:              binary.LittleEndian.Uint32(data[8:12]),
-		TailFreeSize:      binary.LittleEndian.Uint32(data[12:16]),
-		NPendingPages:     binary.LittleEndian.Uint32(data[16:20]),
-		NPendingHeapTuples: binary.LittleEndian.Uint64(data[24:32]),
-		NTotalPages:       binary.LittleEndian.Uint32(data[32:36]),
-		NEntryPages:       binary.LittleEndian.Uint32(data[36:40]),
-		NDataPages:        binary.LittleEndian.Uint32(data[40:44]),
-		NEntries:          binary.LittleEndian.Uint64(data[48:56]),
+		Version:            binary.LittleEndian.Uint32(data[48:52]),
+		Head:               binary.LittleEndian.Uint32(data[0:4]),
+		Tail:               binary.LittleEndian.Uint32(data[4:8]),
+		TailFreeSize:       binary.LittleEndian.Uint32(data[8:12]),
+		NPendingPages:      binary.LittleEndian.Uint32(data[12:16]),
+		NPendingHeapTuples: binary.LittleEndian.Uint64(data[16:24]),
+		NTotalPages:        binary.LittleEndian.Uint32(data[24:28]),
+		NEntryPages:        binary.LittleEndian.Uint32(data[28:32]),
+		NDataPages:         binary.LittleEndian.Uint32(data[32:36]),
+		NEntries:           binary.LittleEndian.Uint64(data[40:48]),
 	}
 }
